@@ -40,6 +40,11 @@ ASSUMPTIONS = [
     "every genotype handed to force_genotypes lists ploidy many alleles (create_genotype_list of a VCF whose calls have "
     "the requested ploidy; VcfReader raises PloidyError otherwise)",
     "--distrust-genotypes is not given; --threads 1; tag PS; no duplicate positions in the VCF",
+    "C15_cuts_sorted_start_at_zero is stated for the breakpoint lists the pipeline produces: sorted by position and "
+    "starting with the zero-confidence breakpoint at 0 (integrate_sub_results sorts each block's list, aggregate_results "
+    "adds non-decreasing offsets and always emits (0, all, 0.0) first - C15_aggregate_sorted_from_zero); unsorted lists or "
+    "lists without that first breakpoint are not reachable and are only used to compare model and code (L2), the spec "
+    "`sorted, starts at 0` is not demanded of them",
     "C15_force_genotypes_conforms_partial / C15_pipeline_conforms_partial: at every forced position at least one candidate "
     "configuration has a non-zero float likelihood (violated by real inputs: finding force:likelihood-underflow)",
 ]
@@ -82,20 +87,36 @@ def bps_term(bps):
 
 
 def cut_decisions(sens, bps, obs):
-    """per-breakpoint decisions that reproduce the observed cuts (first-fit walk along the breakpoints)"""
-    decs, cuts, j = [], [], 0
-    for p, _, c in bps:
+    """per-breakpoint decisions under which the model's loop (Polyphase.cuts_loop: skip a breakpoint at the position of the
+    last cut, stop after the first cut for -B 0, always cut on confidence 0.0, never cut a non-zero confidence for -B 0/1,
+    always for -B 5, free for -B 2..4) reproduces the observed cuts. Found by a depth-first search over the free decisions
+    (search only - the verdict is Coq's evaluation of cuts_replay with these decisions). For sorted breakpoint lists the
+    first branch succeeds; unsorted lists (not reachable from the pipeline, kept as a malformed stream) may need backtracking."""
+    obs = list(obs)
+    n = len(bps)
+
+    def rec(i, cuts, decs):
+        if cuts != obs[:len(cuts)]:
+            return None
+        if i == n:
+            return decs if cuts == obs else None
+        p, _, c = bps[i]
         if cuts and cuts[-1] == p:
-            decs.append(False)
-            continue
+            return rec(i + 1, cuts, decs + [False])
         if cuts and sens == 0:
-            break
-        if j < len(obs) and obs[j] == p:
-            decs.append(True)
-            cuts.append(p)
-            j += 1
+            return decs if cuts == obs else None
+        if c == 0.0 or sens >= 5:
+            options = [True]
+        elif sens <= 1:
+            options = [False]
         else:
-            decs.append(False)
+            options = [True, False] if len(cuts) < len(obs) and obs[len(cuts)] == p else [False]
+        for d in options:
+            r = rec(i + 1, cuts + [p] if d else cuts, decs + [d])
+            if r is not None:
+                return r
+        return None
+    decs = rec(0, [], []) or []
     return L((term(bool(d)) for d in decs), "bool")
 
 
